@@ -11,6 +11,10 @@ macro_rules! cfg {
 }
 
 fn main() {
+    vengine::on_worker_stack(real_main);
+}
+
+fn real_main() {
     let mut run = Run::from_args("C17", "c17");
     let r = &mut run;
     cfg!(r, d8, 1, i128);
